@@ -193,3 +193,80 @@ def c12_2(R):
         R.ok("fresh-conn-id", g.name, "advances by 2 while (addr, id) is a live key")
     else:
         R.fail([g.name, "loop-shape"], "get_next_free_conn_id no longer skips ids whose key is live", where=g.where(), instance="fresh-conn-id")
+
+
+def deep_fields(body, op, depth=0, seen=None):
+    """every field read in the backward slice of a value, looking through calls (unwrap_or, try_into, map ...) and multi-definition locals"""
+    seen = seen if seen is not None else set()
+    out = set()
+    if depth > 10 or op is None:
+        return out
+    if isinstance(op, Operand) and op.kind == "const":
+        return out
+    t = trace(body, op, through_casts=True)
+    for f in t.fields:
+        out.add(f)
+    k = t.key()
+    if k in seen:
+        return out
+    seen.add(k)
+    if t.kind == "call":
+        for a in t.root[1].args:
+            out |= deep_fields(body, a, depth + 1, seen)
+    elif t.kind == "rv":
+        for a in t.root[1].rv.ops:
+            out |= deep_fields(body, a, depth + 1, seen)
+        if t.root[1].rv.place is not None:
+            out |= deep_fields(body, t.root[1].rv.place, depth + 1, seen)
+    elif t.kind == "multi":
+        for d in t.root[3]:
+            if isinstance(d, Stmt):
+                for a in d.rv.ops:
+                    out |= deep_fields(body, a, depth + 1, seen)
+            elif isinstance(d, Term) and d.kind == "call":
+                for a in d.args:
+                    out |= deep_fields(body, a, depth + 1, seen)
+    return out
+
+
+@rule("C12.3", ["C12", "C19", "C18", "C08"], ["E4", "E7"], "the configuration the user gave is the configuration the code reads",
+      "SocketOpts::validate builds ValidatedSocketOpts field by field from the option of the same meaning: nagle = !disable_nagle, wait_for_last_ack = !dont_wait_for_lastack, "
+      "max_active_streams <- max_live_vsocks, max_segment_retransmissions <- max_retransmissions, vsock_tx_bufsize_bytes_{initial,max} <- the same-named options, remote_inactivity_timeout, "
+      "mtu_probe_max_retransmissions, congestion, link_mtu <- link_mtu, vsock_rx_bufsize <- vsock_rx_bufsize_bytes; UtpSocket::opts hands out UtpSocket.opts.")
+def c12_3(R):
+    v = R.body("socket::SocketOpts::validate")
+    want = {
+        "nagle": ("SocketOpts.disable_nagle", True),
+        "wait_for_last_ack": ("SocketOpts.dont_wait_for_lastack", True),
+        "max_active_streams": ("SocketOpts.max_live_vsocks", False),
+        "max_segment_retransmissions": ("SocketOpts.max_retransmissions", False),
+        "vsock_tx_bufsize_bytes_initial": ("SocketOpts.vsock_tx_bufsize_bytes_initial", False),
+        "vsock_tx_bufsize_bytes_max": ("SocketOpts.vsock_tx_bufsize_bytes_max", False),
+        "remote_inactivity_timeout": ("SocketOpts.remote_inactivity_timeout", False),
+        "mtu_probe_max_retransmissions": ("SocketOpts.mtu_probe_max_retransmissions", False),
+        "congestion": ("SocketOpts.congestion", False),
+        "link_mtu": ("SocketOpts.link_mtu", False),
+        "vsock_rx_bufsize": ("SocketOpts.vsock_rx_bufsize_bytes", False),
+    }
+    seen = 0
+    for s in v.stmts():
+        if s.rv.kind == "agg" and s.rv.j.get("adt") == "socket::ValidatedSocketOpts":
+            names = s.rv.j["fields"]
+            for fld, (src, negated) in want.items():
+                if fld not in names:
+                    R.fail([v.name, "field-missing", fld], "ValidatedSocketOpts.%s is gone" % fld, where=s.where(), instance="config-wiring")
+                    continue
+                seen += 1
+                op = s.rv.ops[names.index(fld)]
+                vs = {x for x in deep_fields(v, op) if x.startswith("SocketOpts.")}
+                t = trace(v, op, through_casts=False)
+                is_not = t.kind == "rv" and t.root[1].rv.kind == "un" and t.root[1].rv.op == "Not"
+                if vs == {src} and is_not == negated:
+                    R.ok("config-wiring", fld, "<- %s%s" % ("!" if negated else "", src.split(".")[1]))
+                else:
+                    R.fail([v.name, "config-wiring", fld, "from=%s%s" % ("!" if is_not else "", ",".join(sorted(x.split(".")[1] for x in vs)) or "?")],
+                           "ValidatedSocketOpts.%s is built from %s%s instead of %s%s: the option the user set does not reach the code it configures" % (fld, "!" if is_not else "", ",".join(sorted(x.split(".")[1] for x in vs)) or "nothing", "!" if negated else "", src.split(".")[1]),
+                           where=s.where(), instance="config-wiring")
+    R.floor("ValidatedSocketOpts fields wired", seen, 11)
+    n = check_getters(R, ("socket::UtpSocket::opts",))
+    R.floor("UtpSocket::opts accessor", n, 1)
